@@ -20,7 +20,7 @@ ASSUMPTIONS = [
     "existence queries reject corruption on local stores only (the base store's query is existence-only, as the statement says)",
 ]
 MONITORS = "verdicts of check / oids_exist / checkout / verifying add compared with the harness's own ground truth of which objects were tampered; file presence and mode bits re-read from disk"
-REQUIRED_COUNTERS = ["verify_transfer_rounds_by_configuration_only", "re_adds_of_tampered_object", "probes_with_removal_denied", "big_existence_queries", "verify_transfer_rounds", "verify_add_over_intact_object", "read_only_handle_probes", "used_intact_before_tamper", "probe/check", "probe/oids_exist", "probe/checkout", "probe/verify-add", "state/warm", "state/cold", "state/none",
+REQUIRED_COUNTERS = ["relinking_checkouts_over_intact_copies", "verify_transfer_rounds_by_configuration_only", "re_adds_of_tampered_object", "probes_with_removal_denied", "big_existence_queries", "verify_transfer_rounds", "verify_add_over_intact_object", "read_only_handle_probes", "used_intact_before_tamper", "probe/check", "probe/oids_exist", "probe/checkout", "probe/verify-add", "state/warm", "state/cold", "state/none",
                      "tampered_objects", "intact_objects_checked", "store/local", "store/base", "tamper/truncate", "tamper/append",
                      "tamper/same-length", "tamper/diff-length", "tamper/rename", "unprotected_intact_checked"]
 
@@ -312,6 +312,38 @@ def run_shard(ctx):
                     check_intact(o, "oids_exist")
                 if got is not None and H("md5", b"absent") in got:
                     res.violation("absent-object-reported-existing", "oids_exist lists an id that is not in the store", case=case, detail=cfg)
+            elif probe == "checkout" and rng.random() < 0.25:
+                # a relinking checkout over a workspace that already holds the (intact) data as copies: the configured link type
+                # has been switched, so unchanged files are to be relinked - from objects some of which are now tampered
+                pre2 = os.path.join(d, "pre-relink")
+                for k_, v_ in files.items():
+                    fp_ = os.path.join(pre2, *k_)
+                    os.makedirs(os.path.dirname(fp_), exist_ok=True)
+                    with open(fp_, "wb") as f:
+                        f.write(v_)
+                lt_ = rng.choice(["hardlink", "symlink"])
+                rodb = env.odb_of_class(cls, root, state=state, type=[lt_])
+                res.count("relinking_checkouts_over_intact_copies")
+                file_victims = {v for v in victims if not v.endswith(DIR_SUFFIX)}
+                raised = False
+                try:
+                    checkout(pre2, fs, obj if rng.random() < 0.5 else loaded_before, rodb, force=True, relink=True, state=state)
+                except (CheckoutError, ObjectFormatError, FileNotFoundError):
+                    raised = True
+                except PermissionError:
+                    if not deny:
+                        raise
+                    raised = True
+                got = walk_files(pre2)
+                for k_, v_ in files.items():
+                    if H("md5", v_) in file_victims and got.get(k_) is not None and got[k_] != v_:
+                        res.violation(f"checkout-materialised-corrupt-bytes/relink/{lt_}", f"{'/'.join(k_)}: the intact copy was replaced by a link to the tampered object", case=case, detail=cfg)
+                        break
+                for v in sorted(file_victims):
+                    if not gone(v) and stat.S_IMODE(os.stat(objs[v]).st_mode) == 0o444 and H("md5", file_bytes(objs[v])) != v and not deny:
+                        res.violation("corrupt-object-protected-by-checkout/relink", f"tampered {v} was made read-only (trusted from now on) by the relinking checkout", case=case, detail=cfg)
+                if file_victims and not raised and any(H("md5", v_) in file_victims for v_ in files.values()):
+                    res.violation(f"checkout-served-corrupt-object/relink/{how}", "relinking checkout of a tree with a tampered file returned normally", case=case, detail=cfg)
             else:
                 out = os.path.join(d, "out")
                 target = obj if rng.random() < 0.5 else loaded_before
